@@ -2,6 +2,7 @@ package p_isaaca
 
 import (
 	"fmt"
+	"runtime/debug"
 	"strings"
 	"sync"
 	"testing"
@@ -486,7 +487,7 @@ func c06BoxDFS(t ev.TB, r *ev.Rec, ps, ballots []c06Pos, prefix []c06Pos, maxDep
 		moved, evs := c06BoxSet(t, r, box, cand, fromVoteproof, hist)
 		cnt.add(evs)
 
-		if c06Nontrivial(evs) && len(cnt.sample) < 2 && len(prefix) > 0 {
+		if c06Nontrivial(evs) && len(cnt.sample) < 1 && len(prefix) > 0 {
 			cnt.sample = append(cnt.sample, map[string]any{"holder": "ballotbox", "history": hist, "update": cand.String(), "accepted": moved})
 		}
 
@@ -713,6 +714,7 @@ func TestC06(t *testing.T) {
 		"non-trivial: the case contains an accepted backward (suffrage-confirm) move, a same-stage-point replacement, or a rejected lower-height input; " +
 		"exhaustive parts are distinct by construction, rapid cases by the sequence")
 	r.Floor(500)
+	r.MaxSamples(6)
 	r.Exhaustive(true)
 	r.Assume(
 		"positions are restricted to those NewLastPointFromVoteproof can produce (suffrage-confirm => INIT and majority)",
@@ -790,7 +792,7 @@ func TestC06(t *testing.T) {
 
 				cnt.add(evs)
 
-				if c06Nontrivial(evs) && evs&c06EvLowerRejected == 0 && len(cnt.sample) < 2 {
+				if c06Nontrivial(evs) && evs&c06EvLowerRejected == 0 && len(cnt.sample) < 1 {
 					cnt.sample = append(cnt.sample, map[string]any{"holder": "step-relation", "last": last.String(), "voteproof": cand.String(), "accepted": true})
 				}
 			}
@@ -806,6 +808,10 @@ func TestC06(t *testing.T) {
 	// ---- B. ballotbox, all accepted sequences
 	t.Run("B-ballotbox", func(t *testing.T) {
 		var cnt c06Counters
+
+		// every Ballotbox owns a 1 MiB voteproof channel: let garbage pile up to the limit instead of collecting every few boxes
+		defer debug.SetGCPercent(debug.SetGCPercent(-1))
+		defer debug.SetMemoryLimit(debug.SetMemoryLimit(1 << 30))
 
 		depth := r.N(3, 4)
 
@@ -858,7 +864,13 @@ func TestC06(t *testing.T) {
 		}
 	})
 
+	if t.Failed() {
+		return
+	}
+
 	// ---- D. rapid sequences through both holders
+	defer debug.SetGCPercent(debug.SetGCPercent(-1))
+	defer debug.SetMemoryLimit(debug.SetMemoryLimit(1 << 30))
 	r.Checks(1500, 200000)
 	r.ShrinkTime(20 * time.Second)
 	rapid.Check(t, func(rt *rapid.T) {
